@@ -220,6 +220,10 @@ class PythonCryptoEndpoint(CryptoEndpoint, EndpointListener):
         relay = self.relays.get(circuit_id)
 
         try:
+            if not cell.plaintext and (not circuit.hops if circuit else not exit_socket and not relay):
+                # Without keys the cell would leave unencrypted: only create/created are meant to be sent in plaintext.
+                msg = f"No session keys to encrypt cell for circuit {circuit_id}"
+                raise CryptoException(msg)
             if circuit:
                 if circuit.hs_session_keys:
                     direction = FORWARD if circuit.ctype == CIRCUIT_TYPE_RP_SEEDER else BACKWARD
